@@ -24,13 +24,24 @@ static const PInfo PARAMS[] = {
     {"/hidden", 'i', 0, 10, false, 0, false},
     {"/nobounds", 'i', 0, 0, false, 0, false},
     {"/missing", 'i', 0, 0, false, 0, false},
+    // full paths of 124 and 127 characters: the longest the automation's 128-byte path field holds
+    {"/a_deeply_nested_application_object_with_a_long_name_0123456789/another_level_of_the_tree_with_a_descriptive_name_abcdefgh/i", 'i', 0, 127, false, 0, true},
+    {"/a_deeply_nested_application_object_with_a_long_name_0123456789/another_level_of_the_tree_with_a_descriptive_name_abcdefgh/tttt", 'T', 0, 1, false, 0, true},
 };
-static const int NPARAMS = 13;
+static const int NPARAMS = 15;
 static void nop(const char *, rtosc::RtData &) {}
 static const rtosc::Ports sub_ports = {
     {"depth::i", rMap(min, 0) rMap(max, 16), 0, nop},
 };
+static const rtosc::Ports long_leaf_ports = {
+    {"i::i", rMap(min, 0) rMap(max, 127), 0, nop},
+    {"tttt::T:F", rProp(parameter), 0, nop},
+};
+static const rtosc::Ports long_mid_ports = {
+    {"another_level_of_the_tree_with_a_descriptive_name_abcdefgh/", 0, &long_leaf_ports, nop},
+};
 static const rtosc::Ports ports = {
+    {"a_deeply_nested_application_object_with_a_long_name_0123456789/", 0, &long_mid_ports, nop},
     {"ival::i", rMap(min, 0) rMap(max, 127), 0, nop},
     {"neg::i", rMap(min, -64) rMap(max, 63), 0, nop},
     {"wide::i", rMap(min, -1000) rMap(max, 1000), 0, nop},
@@ -149,7 +160,8 @@ static void run_case(Rng &r)
         size_t from = g_out.size();
         int k = (int)r.below(20);
         if(k < 5) {
-            int slot = (int)r.below(nslots), pi = (int)r.below(r.chance(0.85) ? 9 : NPARAMS);
+            int slot = (int)r.below(nslots), pi = (int)r.below(r.chance(0.85) ? 9 : 13);
+            if(r.chance(0.08)) { pi = 13 + (int)r.below(2); count("ops.createBinding_long_path"); }
             bool learn = r.chance(0.6);
             g_hist += fmt(" create(%d,%s,%s)", slot, PARAMS[pi].path, learn ? "learn" : "-");
             mgr->createBinding(slot, PARAMS[pi].path, learn);
@@ -196,6 +208,8 @@ static void run_case(Rng &r)
             int slot = (int)r.below(nslots);
             static const double X[] = {0, 1, 0.5, 0.25, 0.75, -0.5, 1.5, 1.0 / 127, 126.0 / 127, 0.1, 0.9, 0.3333333};
             double x = r.chance(0.7) ? X[r.below(12)] : r.unit();
+            // far outside [0,1]: the output still has to stay inside the parameter's range
+            if(r.chance(0.06)) { static const double FAR[] = {1e8, -1e8, 3e9, -3e9, 1e30, -1e30, 16777216.0, 2147483648.0, 1000.0, -1000.0}; x = FAR[r.below(10)]; count("ops.setSlot_far_outside"); }
             g_hist += fmt(" setSlot(%d,%.7g)", slot, x);
             mgr->setSlot(slot, (float)x);
             count("ops.setSlot");
